@@ -22,7 +22,8 @@ class ExprMixin:
             return [(True, st)]
         if z3.is_false(c):
             return [(False, st)]
-        yes, no = self.feasible(st, c), self.feasible(st, z3.Not(c))
+        yes = self.feasible(st, c)
+        no = self.feasible(st, z3.Not(c)) if yes else True  # pc is satisfiable on every explored path
         out = []
         if yes and no:
             s2 = st.fork()
@@ -391,7 +392,8 @@ class ExprMixin:
                     return [("val", v, s1)]
                 if z3.is_false(stop):
                     return go(i + 1, s1)
-                can_stop, can_go = self.feasible(s1, stop), self.feasible(s1, z3.Not(stop))
+                can_stop = self.feasible(s1, stop)
+                can_go = self.feasible(s1, z3.Not(stop)) if can_stop else True
                 if can_stop and not can_go:
                     s1.assume(stop)
                     return [("val", v, s1)]
@@ -419,7 +421,8 @@ class ExprMixin:
                 return self.ev(e.body, s)
             if z3.is_false(c):
                 return self.ev(e.orelse, s)
-            yes, no = self.feasible(s, c), self.feasible(s, z3.Not(c))
+            yes = self.feasible(s, c)
+            no = self.feasible(s, z3.Not(c)) if yes else True
             if yes and not no:
                 s.assume(c)
                 return self.ev(e.body, s)
